@@ -14,6 +14,12 @@ CLAIMED = {
  "C12": dict(cat="proof", technique="composition of extracted stencils as polynomial substitution; normal form of the difference must be 0",
              text="div curl = 0, div(update-id) = 0, 2D div(curl psi) = 0, curl curl psi = wide negative Laplacian, update_from_forcing = id + library curl, penalised update = forcing update of the difference; monitor binding and write set from the simulator trace.",
              note="exact arithmetic at cells whose stencils do not touch the ring; trusted A1, A2, A7", ref="5 C12"),
+ "C15": dict(cat="other", technique="per-stencil dependence rule on extracted IR; per-launch may-alias analysis of resolved array bindings over all op traces; AST rule for serial numba accumulation",
+             text="Exactly the statement: (a) every stencil reads the fields it writes at the written cell only, (b) in every kernel launch of every generator/simulator/solver/coupling trace no written argument may-aliases a neighbour-read or differently indexed argument, (c) spreading loops are serial. Thread count and iteration order are then irrelevant.",
+             note="trusted A1, A3 (overlap-safe numpy slice assignment), A4 (numba serial order), A7, A8; all 63 stencil definitions must be reached (else exit 2)", ref="5 C15"),
+ "C18": dict(cat="other", technique="region-precise liveness/dependence analysis by symbolic store execution of every step/interaction trace; structured dominance rules and an idiom table on the restart helper",
+             text="No hidden state: the transitive roots of every public output after a step/interaction are public state or arrays the step never writes (scratch buffers are fully overwritten before they are read, with Interior(g)+ring coverage decided by the region algebra); only `time` is assigned; restart helper picks the largest index, raises on no checkpoint / time mismatch before use, returns the checkpoint time.",
+             note="remainder: PyElastica's own load_state and h5py; IO round trip is C17; trusted A1, A3, A4, A5, A7", ref="5 C18"),
  "C20": dict(cat="proof", technique="symbolic execution of the time-step wrappers; Euler operator A extracted from the Euler kernel and composed (A, A^2, A^3); equality of normal forms",
              text="Euler kernels equal field + step*flux(field) with the library's own flux kernels and the unscaled step; SSP-RK3 summary equals (I + A + A^2/2 + A^3/6) omega with A the extracted Euler operator for the same step.",
              note="deep-interior cells (ring handling is C13/C18); trusted A1, A2, A7", ref="5 C20"),
